@@ -6,6 +6,7 @@
  *
  * usage: cdriver <cases> <results>
  */
+#define _GNU_SOURCE
 #include <polyseed.h>
 
 #include <stdio.h>
@@ -69,6 +70,8 @@ static size_t cur_rand_len;
 static uint64_t cur_clock;
 static int cur_alloc_ok = 1;
 static char* stack_base;
+static int scan_mode;
+static int g_pending_ev;
 
 static int find_block(const void* p) {
     for (int i = nblocks - 1; i >= 0; --i)
@@ -230,6 +233,64 @@ static size_t nfkd_t(const char* str, char* norm, const char* kind) {
 static size_t dep_nfkd(const char* str, polyseed_str norm) { return nfkd_t(str, norm, "nfkd:"); }
 static size_t dep_nfkd1(const char* str, polyseed_str norm) { return nfkd_t(str, norm, "nfkd1:"); }
 
+/* ------------------------------------------------------------- frame mode */
+#ifdef FRAME_MODE
+/* The library is linked as libpsframe.so.  Outside set-up operations its
+   writable segments are made read-only, so any write to static storage faults
+   at the writing instruction. */
+#include <sys/mman.h>
+#include <signal.h>
+#include <unistd.h>
+static struct { uintptr_t lo, hi; } segs[16];
+static int nsegs;
+static void find_segs(void) {
+    FILE* f = fopen("/proc/self/maps", "r");
+    char l[512];
+    uintptr_t last_hi = 0;
+    nsegs = 0;
+    while (f && fgets(l, sizeof l, f)) {
+        uintptr_t lo, hi; char perms[8];
+        if (sscanf(l, "%lx-%lx %7s", &lo, &hi, perms) != 3) continue;
+        int named = strstr(l, "libpsframe.so") != NULL;
+        int anon_after = !strchr(l, '/') && !strchr(l, '[') && lo == last_hi && last_hi != 0;
+        if (perms[1] == 'w' && (named || anon_after) && nsegs < 16) {
+            segs[nsegs].lo = lo; segs[nsegs].hi = hi; nsegs++;
+            last_hi = hi;
+        } else if (named) {
+            last_hi = 0;
+        } else {
+            last_hi = 0;
+        }
+    }
+    if (f) fclose(f);
+}
+static void protect(int ro) {
+    for (int i = 0; i < nsegs; ++i)
+        mprotect((void*)segs[i].lo, segs[i].hi - segs[i].lo, ro ? PROT_READ : (PROT_READ | PROT_WRITE));
+}
+static void on_segv(int sig, siginfo_t* si, void* u) {
+    char msg[160];
+    int n = snprintf(msg, sizeof msg, "STATIC-WRITE: fault at address %p (library static storage is read-only outside set-up)\n", si->si_addr);
+    (void)!write(2, msg, n);
+    _exit(3);
+}
+static void frame_init(void) {
+    find_segs();
+    struct sigaction sa;
+    memset(&sa, 0, sizeof sa);
+    sa.sa_sigaction = on_segv;
+    sa.sa_flags = SA_SIGINFO;
+    sigaction(SIGSEGV, &sa, NULL);
+    protect(1);
+}
+#define FRAME_SETUP_BEGIN() protect(0)
+#define FRAME_SETUP_END() protect(1)
+#else
+#define FRAME_SETUP_BEGIN() ((void)0)
+#define FRAME_SETUP_END() ((void)0)
+static void frame_init(void) {}
+#endif
+
 /* ----------------------------------------------------------------- parsing */
 static char* field(char* line, const char* key) {
     size_t kl = strlen(key);
@@ -281,6 +342,247 @@ static void do_inject(int tag, int tnull, int anull, int fnull) {
     memset(&d, 0x5A, sizeof d);
 }
 
+static FILE* g_out;
+static long g_lineno;
+static char* g_leak;       /* scan mode: text appended to the result line */
+
+/* one operation line -> one result line (without the trailing newline in scan mode) */
+/* scan mode: the operation runs on a private stack; right after the library
+   call returns it yields to the main context, which scans the dead part of that
+   stack before anything else can overwrite it */
+#include <ucontext.h>
+static ucontext_t ctx_main, ctx_op;
+static volatile int op_paused;
+#define AFTER_LIB() do { in_lib = 0; if (scan_mode) { op_paused = 1; swapcontext(&ctx_op, &ctx_main); } } while (0)
+
+static void process(char* line) {
+    evlen = 0; evbuf[0] = 0;
+    cur_alloc_ok = (int)fnum(line, "ok", 1);
+    cur_clock = fnum(line, "clock", 0);
+    char res[64] = "unit";
+    char* big = NULL;       /* large result */
+    fprintf(g_out, "%ld ", g_lineno);
+    fflush(g_out);            /* so that a crash shows where it happened */
+
+    if (!strncmp(line, "reset", 5)) {
+        for (int i = 0; i < nblocks; ++i)
+            if (blocks[i].live) { __real_free(blocks[i].p); blocks[i].live = 0; }
+        nblocks = 0;
+        FRAME_SETUP_BEGIN();
+        do_inject(0, 0, 0, 0);
+        polyseed_enable_features(0);
+        FRAME_SETUP_END();
+    }
+    else if (!strncmp(line, "inject", 6)) {
+        FRAME_SETUP_BEGIN();
+        do_inject((int)fnum(line, "tag", 0), (int)fnum(line, "tnull", 0),
+            (int)fnum(line, "anull", 0), (int)fnum(line, "fnull", 0));
+        FRAME_SETUP_END();
+    }
+    else if (!strncmp(line, "enable", 6)) {
+        in_lib = 1;
+        FRAME_SETUP_BEGIN();
+        int n = polyseed_enable_features((unsigned)fnum(line, "mask", 0));
+        FRAME_SETUP_END();
+        AFTER_LIB();
+        snprintf(res, sizeof res, "num=%d", n);
+    }
+    else if (!strncmp(line, "create", 6)) {
+        size_t rl; uint8_t* r = fhex(line, "rand", &rl, 0);
+        cur_rand_len = rl < sizeof cur_rand ? rl : sizeof cur_rand;
+        memcpy(cur_rand, r, cur_rand_len);
+        polyseed_data* seed = NULL;
+        in_lib = 1;
+        polyseed_status st = polyseed_create((unsigned)fnum(line, "feat", 0), &seed);
+        AFTER_LIB();
+        int b = (st == POLYSEED_OK) ? find_block(seed) : -1;
+        if (b >= 0) snprintf(res, sizeof res, "st=%d seed=%d lang=-", st, b);
+        else snprintf(res, sizeof res, "st=%d seed=- lang=-", st);
+        __real_free(r);
+    }
+    else if (!strncmp(line, "load", 4)) {
+        size_t bl; uint8_t* b = fhex(line, "buf", &bl, 0);
+        uint8_t* copy = __real_malloc(bl + 1); memcpy(copy, b, bl);
+        polyseed_data* seed = NULL;
+        in_lib = 1;
+        polyseed_status st = polyseed_load(b, &seed);
+        AFTER_LIB();
+        int id = (st == POLYSEED_OK) ? find_block(seed) : -1;
+        if (id >= 0) snprintf(res, sizeof res, "st=%d seed=%d lang=-", st, id);
+        else snprintf(res, sizeof res, "st=%d seed=- lang=-", st);
+        if (memcmp(copy, b, bl)) strcat(res, " inmod=1");
+        __real_free(b); __real_free(copy);
+    }
+    else if (!strncmp(line, "decodex", 7) || !strncmp(line, "decode", 6)) {
+        int explicit = !strncmp(line, "decodex", 7);
+        size_t sl; char* s = (char*)fhex(line, "str", &sl, 1);
+        char* copy = __real_malloc(sl + 1); memcpy(copy, s, sl + 1);
+        polyseed_data* seed = NULL;
+        const polyseed_lang* lang = NULL;
+        polyseed_coin coin = (polyseed_coin)fnum(line, "coin", 0);
+        int wantlang = (int)fnum(line, "wantlang", 1);
+        polyseed_status st;
+        in_lib = 1;
+        if (explicit)
+            st = polyseed_decode_explicit(s, coin, polyseed_get_lang((int)fnum(line, "lang", 0)), &seed);
+        else
+            st = polyseed_decode(s, coin, wantlang ? &lang : NULL, &seed);
+        AFTER_LIB();
+        int id = (st == POLYSEED_OK) ? find_block(seed) : -1;
+        int li = -1;
+        if (st == POLYSEED_OK && lang)
+            for (int i = 0; i < polyseed_get_num_langs(); ++i)
+                if (polyseed_get_lang(i) == lang) li = i;
+        char t1[16] = "-", t2[16] = "-";
+        if (id >= 0) snprintf(t1, sizeof t1, "%d", id);
+        if (li >= 0) snprintf(t2, sizeof t2, "%d", li);
+        snprintf(res, sizeof res, "st=%d seed=%s lang=%s", st, t1, t2);
+        if (memcmp(copy, s, sl + 1)) strcat(res, " inmod=1");
+        __real_free(s); __real_free(copy);
+    }
+    else if (!strncmp(line, "encode", 6)) {
+        polyseed_data* seed = seed_of(line);
+        if (!seed) { fprintf(g_out, "badhandle\n"); return; }
+        char* so = __real_malloc(sizeof(polyseed_str));   /* heap: ASan guards the caller's buffer */
+        memset(so, 0x7E, sizeof(polyseed_str));
+        in_lib = 1;
+        size_t n = polyseed_encode(seed, polyseed_get_lang((int)fnum(line, "lang", 0)),
+            (polyseed_coin)fnum(line, "coin", 0), so);
+        AFTER_LIB();
+        size_t sl = strnlen(so, sizeof(polyseed_str));
+        big = __real_malloc(2 * sl + 64);
+        char* q = big + sprintf(big, "str=");
+        for (size_t i = 0; i < sl; ++i) q += sprintf(q, "%02x", (uint8_t)so[i]);
+        sprintf(q, " n=%zu", n);
+        __real_free(so);
+    }
+    else if (!strncmp(line, "store", 5)) {
+        polyseed_data* seed = seed_of(line);
+        if (!seed) { fprintf(g_out, "badhandle\n"); return; }
+        uint8_t* st = __real_malloc(POLYSEED_SIZE);
+        memset(st, 0x7E, POLYSEED_SIZE);
+        in_lib = 1;
+        polyseed_store(seed, st);
+        AFTER_LIB();
+        big = __real_malloc(2 * POLYSEED_SIZE + 16);
+        char* q = big + sprintf(big, "bytes=");
+        for (size_t i = 0; i < POLYSEED_SIZE; ++i) q += sprintf(q, "%02x", st[i]);
+        __real_free(st);
+    }
+    else if (!strncmp(line, "crypt", 5)) {
+        polyseed_data* seed = seed_of(line);
+        if (!seed) { fprintf(g_out, "badhandle\n"); return; }
+        size_t sl; char* s = (char*)fhex(line, "pw", &sl, 1);
+        char* copy = __real_malloc(sl + 1); memcpy(copy, s, sl + 1);
+        in_lib = 1;
+        polyseed_crypt(seed, s);
+        AFTER_LIB();
+        if (memcmp(copy, s, sl + 1)) strcpy(res, "unit inmod=1");
+        __real_free(s); __real_free(copy);
+    }
+    else if (!strncmp(line, "keygen", 6)) {
+        polyseed_data* seed = seed_of(line);
+        if (!seed) { fprintf(g_out, "badhandle\n"); return; }
+        size_t ks = (size_t)fnum(line, "size", 32);
+        uint8_t* key = __real_malloc(ks + 1);
+        memset(key, 0x7E, ks);
+        in_lib = 1;
+        polyseed_keygen(seed, (polyseed_coin)fnum(line, "coin", 0), ks, key);
+        AFTER_LIB();
+        big = __real_malloc(2 * ks + 16);
+        char* q = big + sprintf(big, "bytes=");
+        for (size_t i = 0; i < ks; ++i) q += sprintf(q, "%02x", key[i]);
+        __real_free(key);
+    }
+    else if (!strncmp(line, "birthday", 8)) {
+        polyseed_data* seed = seed_of(line);
+        if (!seed) { fprintf(g_out, "badhandle\n"); return; }
+        in_lib = 1;
+        uint64_t b = polyseed_get_birthday(seed);
+        AFTER_LIB();
+        snprintf(res, sizeof res, "num=%llu", (unsigned long long)b);
+    }
+    else if (!strncmp(line, "feature", 7)) {
+        polyseed_data* seed = seed_of(line);
+        if (!seed) { fprintf(g_out, "badhandle\n"); return; }
+        in_lib = 1;
+        unsigned f = polyseed_get_feature(seed, (unsigned)fnum(line, "mask", 0));
+        AFTER_LIB();
+        snprintf(res, sizeof res, "num=%u", f);
+    }
+    else if (!strncmp(line, "isenc", 5)) {
+        polyseed_data* seed = seed_of(line);
+        if (!seed) { fprintf(g_out, "badhandle\n"); return; }
+        in_lib = 1;
+        int e = polyseed_is_encrypted(seed);
+        AFTER_LIB();
+        snprintf(res, sizeof res, "num=%d", e);
+    }
+    else if (!strncmp(line, "freenull", 8)) {
+        in_lib = 1;
+        polyseed_free(NULL);
+        AFTER_LIB();
+    }
+    else if (!strncmp(line, "free", 4)) {
+        polyseed_data* seed = seed_of(line);
+        if (!seed) { fprintf(g_out, "badhandle\n"); return; }
+        in_lib = 1;
+        polyseed_free(seed);
+        AFTER_LIB();
+    }
+    else {
+        fprintf(g_out, "unknown-op\n");
+        return;
+    }
+    fprintf(g_out, "%s", big ? big : res);
+    if (g_leak) g_leak = NULL;
+    g_pending_ev = 1;
+    if (big) __real_free(big);
+}
+
+/* ---- scan mode: run process() on a private, pre-patterned stack and look for
+   the needles named in the op line (hex strings, comma separated) afterwards */
+#define PSTACK (512 * 1024)
+static char* pstack;
+static char* p_line;
+static void trampoline(void) { process(p_line); }
+
+static void scan_needles(char* line, char* report, size_t cap) {
+    report[0] = 0;
+    char* v = field(line, "needles");
+    if (!v) return;
+    int idx = 0;
+    while (*v && *v != ' ') {
+        uint8_t nd[256]; size_t n = 0;
+        while (isxdigit((unsigned char)v[0]) && isxdigit((unsigned char)v[1]) && n < sizeof nd) {
+            nd[n++] = hexval(v[0]) * 16 + hexval(v[1]); v += 2;
+        }
+        if (n >= 4) {
+            /* only the dead part: below the stack pointer the op context was suspended at */
+            size_t live = (size_t)((char*)ctx_op.uc_mcontext.gregs[REG_RSP] - pstack);
+            if (live > PSTACK) live = PSTACK;
+            for (size_t off = 0; off + n <= live; ++off) {
+                if (pstack[off] == (char)nd[0] && !memcmp(pstack + off, nd, n)) {
+                    size_t l = strlen(report);
+                    snprintf(report + l, cap - l, " leak=%d@%zu", idx, (size_t)(PSTACK - off));
+                    if (getenv("SCAN_DEBUG")) {
+                        size_t a = off > 160 ? off - 160 : 0;
+                        fprintf(stderr, "needle %d at %zu below top: ", idx, (size_t)(PSTACK - off));
+                        for (size_t q = a; q < off + 200 && q < PSTACK; ++q) {
+                            unsigned char ch = pstack[q];
+                            fputc(ch >= 32 && ch < 127 ? ch : (ch == 0xA5 ? '~' : '.'), stderr);
+                        }
+                        fputc('\n', stderr);
+                    }
+                    break;
+                }
+            }
+        }
+        idx++;
+        if (*v == ',') v++; else break;
+    }
+}
+
 int main(int argc, char** argv) {
     char base;
     stack_base = &base + 4096;
@@ -293,8 +595,12 @@ int main(int argc, char** argv) {
     long lineno = 0;
     long skip_to = argc > 3 ? atol(argv[3]) : 0;   /* restart after a crash */
     evcap = 1 << 16; evbuf = __real_malloc(evcap);
+    g_out = out;
+    scan_mode = argc > 4 && !strcmp(argv[4], "scan");
+    if (scan_mode) pstack = __real_malloc(PSTACK);
     do_inject(0, 0, 0, 0);
     polyseed_enable_features(0);
+    frame_init();
 
     while (getline(&line, &cap, in) > 0) {
         lineno++;
@@ -302,181 +608,34 @@ int main(int argc, char** argv) {
         while (ll && (line[ll - 1] == '\n' || line[ll - 1] == '\r')) line[--ll] = 0;
         if (lineno < skip_to) continue;
         if (!ll || line[0] == '#') { fprintf(out, "%ld skip\n", lineno); continue; }
-        evlen = 0; evbuf[0] = 0;
-        cur_alloc_ok = (int)fnum(line, "ok", 1);
-        cur_clock = fnum(line, "clock", 0);
-        char res[64] = "unit";
-        char* big = NULL;       /* large result */
-        fprintf(out, "%ld ", lineno);
-        fflush(out);            /* so that a crash shows where it happened */
-
-        if (!strncmp(line, "reset", 5)) {
-            for (int i = 0; i < nblocks; ++i)
-                if (blocks[i].live) { __real_free(blocks[i].p); blocks[i].live = 0; }
-            nblocks = 0;
-            do_inject(0, 0, 0, 0);
-            polyseed_enable_features(0);
+        p_line = line;
+        g_lineno = lineno;
+        g_pending_ev = 0;
+        if (scan_mode && strncmp(line, "reset", 5) && strncmp(line, "inject", 6)) {
+            memset(pstack, 0xA5, PSTACK);
+            getcontext(&ctx_op);
+            ctx_op.uc_stack.ss_sp = pstack;
+            ctx_op.uc_stack.ss_size = PSTACK;
+            ctx_op.uc_link = &ctx_main;
+            makecontext(&ctx_op, trampoline, 0);
+            stack_base = pstack + PSTACK;
+            op_paused = 0;
+            swapcontext(&ctx_main, &ctx_op);
+            char report[1024];
+            report[0] = 0;
+            if (op_paused) {
+                /* the library call has just returned: scan below the op's current stack pointer */
+                scan_needles(line, report, sizeof report);
+                op_paused = 0;
+                swapcontext(&ctx_main, &ctx_op);
+            }
+            if (g_pending_ev) fprintf(out, "%s ev=%s\n", report, evbuf);
+        } else {
+            process(line);
+            if (g_pending_ev) fprintf(out, " ev=%s\n", evbuf);
         }
-        else if (!strncmp(line, "inject", 6)) {
-            do_inject((int)fnum(line, "tag", 0), (int)fnum(line, "tnull", 0),
-                (int)fnum(line, "anull", 0), (int)fnum(line, "fnull", 0));
-        }
-        else if (!strncmp(line, "enable", 6)) {
-            in_lib = 1;
-            int n = polyseed_enable_features((unsigned)fnum(line, "mask", 0));
-            in_lib = 0;
-            snprintf(res, sizeof res, "num=%d", n);
-        }
-        else if (!strncmp(line, "create", 6)) {
-            size_t rl; uint8_t* r = fhex(line, "rand", &rl, 0);
-            cur_rand_len = rl < sizeof cur_rand ? rl : sizeof cur_rand;
-            memcpy(cur_rand, r, cur_rand_len);
-            polyseed_data* seed = NULL;
-            in_lib = 1;
-            polyseed_status st = polyseed_create((unsigned)fnum(line, "feat", 0), &seed);
-            in_lib = 0;
-            int b = (st == POLYSEED_OK) ? find_block(seed) : -1;
-            if (b >= 0) snprintf(res, sizeof res, "st=%d seed=%d lang=-", st, b);
-            else snprintf(res, sizeof res, "st=%d seed=- lang=-", st);
-            __real_free(r);
-        }
-        else if (!strncmp(line, "load", 4)) {
-            size_t bl; uint8_t* b = fhex(line, "buf", &bl, 0);
-            uint8_t* copy = __real_malloc(bl + 1); memcpy(copy, b, bl);
-            polyseed_data* seed = NULL;
-            in_lib = 1;
-            polyseed_status st = polyseed_load(b, &seed);
-            in_lib = 0;
-            int id = (st == POLYSEED_OK) ? find_block(seed) : -1;
-            if (id >= 0) snprintf(res, sizeof res, "st=%d seed=%d lang=-", st, id);
-            else snprintf(res, sizeof res, "st=%d seed=- lang=-", st);
-            if (memcmp(copy, b, bl)) strcat(res, " inmod=1");
-            __real_free(b); __real_free(copy);
-        }
-        else if (!strncmp(line, "decodex", 7) || !strncmp(line, "decode", 6)) {
-            int explicit = !strncmp(line, "decodex", 7);
-            size_t sl; char* s = (char*)fhex(line, "str", &sl, 1);
-            char* copy = __real_malloc(sl + 1); memcpy(copy, s, sl + 1);
-            polyseed_data* seed = NULL;
-            const polyseed_lang* lang = NULL;
-            polyseed_coin coin = (polyseed_coin)fnum(line, "coin", 0);
-            int wantlang = (int)fnum(line, "wantlang", 1);
-            polyseed_status st;
-            in_lib = 1;
-            if (explicit)
-                st = polyseed_decode_explicit(s, coin, polyseed_get_lang((int)fnum(line, "lang", 0)), &seed);
-            else
-                st = polyseed_decode(s, coin, wantlang ? &lang : NULL, &seed);
-            in_lib = 0;
-            int id = (st == POLYSEED_OK) ? find_block(seed) : -1;
-            int li = -1;
-            if (st == POLYSEED_OK && lang)
-                for (int i = 0; i < polyseed_get_num_langs(); ++i)
-                    if (polyseed_get_lang(i) == lang) li = i;
-            char t1[16] = "-", t2[16] = "-";
-            if (id >= 0) snprintf(t1, sizeof t1, "%d", id);
-            if (li >= 0) snprintf(t2, sizeof t2, "%d", li);
-            snprintf(res, sizeof res, "st=%d seed=%s lang=%s", st, t1, t2);
-            if (memcmp(copy, s, sl + 1)) strcat(res, " inmod=1");
-            __real_free(s); __real_free(copy);
-        }
-        else if (!strncmp(line, "encode", 6)) {
-            polyseed_data* seed = seed_of(line);
-            if (!seed) { fprintf(out, "badhandle\n"); continue; }
-            char* so = __real_malloc(sizeof(polyseed_str));   /* heap: ASan guards the caller's buffer */
-            memset(so, 0x7E, sizeof(polyseed_str));
-            in_lib = 1;
-            size_t n = polyseed_encode(seed, polyseed_get_lang((int)fnum(line, "lang", 0)),
-                (polyseed_coin)fnum(line, "coin", 0), so);
-            in_lib = 0;
-            size_t sl = strnlen(so, sizeof(polyseed_str));
-            big = __real_malloc(2 * sl + 64);
-            char* q = big + sprintf(big, "str=");
-            for (size_t i = 0; i < sl; ++i) q += sprintf(q, "%02x", (uint8_t)so[i]);
-            sprintf(q, " n=%zu", n);
-            __real_free(so);
-        }
-        else if (!strncmp(line, "store", 5)) {
-            polyseed_data* seed = seed_of(line);
-            if (!seed) { fprintf(out, "badhandle\n"); continue; }
-            uint8_t* st = __real_malloc(POLYSEED_SIZE);
-            memset(st, 0x7E, POLYSEED_SIZE);
-            in_lib = 1;
-            polyseed_store(seed, st);
-            in_lib = 0;
-            big = __real_malloc(2 * POLYSEED_SIZE + 16);
-            char* q = big + sprintf(big, "bytes=");
-            for (size_t i = 0; i < POLYSEED_SIZE; ++i) q += sprintf(q, "%02x", st[i]);
-            __real_free(st);
-        }
-        else if (!strncmp(line, "crypt", 5)) {
-            polyseed_data* seed = seed_of(line);
-            if (!seed) { fprintf(out, "badhandle\n"); continue; }
-            size_t sl; char* s = (char*)fhex(line, "pw", &sl, 1);
-            char* copy = __real_malloc(sl + 1); memcpy(copy, s, sl + 1);
-            in_lib = 1;
-            polyseed_crypt(seed, s);
-            in_lib = 0;
-            if (memcmp(copy, s, sl + 1)) strcpy(res, "unit inmod=1");
-            __real_free(s); __real_free(copy);
-        }
-        else if (!strncmp(line, "keygen", 6)) {
-            polyseed_data* seed = seed_of(line);
-            if (!seed) { fprintf(out, "badhandle\n"); continue; }
-            size_t ks = (size_t)fnum(line, "size", 32);
-            uint8_t* key = __real_malloc(ks + 1);
-            memset(key, 0x7E, ks);
-            in_lib = 1;
-            polyseed_keygen(seed, (polyseed_coin)fnum(line, "coin", 0), ks, key);
-            in_lib = 0;
-            big = __real_malloc(2 * ks + 16);
-            char* q = big + sprintf(big, "bytes=");
-            for (size_t i = 0; i < ks; ++i) q += sprintf(q, "%02x", key[i]);
-            __real_free(key);
-        }
-        else if (!strncmp(line, "birthday", 8)) {
-            polyseed_data* seed = seed_of(line);
-            if (!seed) { fprintf(out, "badhandle\n"); continue; }
-            in_lib = 1;
-            uint64_t b = polyseed_get_birthday(seed);
-            in_lib = 0;
-            snprintf(res, sizeof res, "num=%llu", (unsigned long long)b);
-        }
-        else if (!strncmp(line, "feature", 7)) {
-            polyseed_data* seed = seed_of(line);
-            if (!seed) { fprintf(out, "badhandle\n"); continue; }
-            in_lib = 1;
-            unsigned f = polyseed_get_feature(seed, (unsigned)fnum(line, "mask", 0));
-            in_lib = 0;
-            snprintf(res, sizeof res, "num=%u", f);
-        }
-        else if (!strncmp(line, "isenc", 5)) {
-            polyseed_data* seed = seed_of(line);
-            if (!seed) { fprintf(out, "badhandle\n"); continue; }
-            in_lib = 1;
-            int e = polyseed_is_encrypted(seed);
-            in_lib = 0;
-            snprintf(res, sizeof res, "num=%d", e);
-        }
-        else if (!strncmp(line, "freenull", 8)) {
-            in_lib = 1;
-            polyseed_free(NULL);
-            in_lib = 0;
-        }
-        else if (!strncmp(line, "free", 4)) {
-            polyseed_data* seed = seed_of(line);
-            if (!seed) { fprintf(out, "badhandle\n"); continue; }
-            in_lib = 1;
-            polyseed_free(seed);
-            in_lib = 0;
-        }
-        else {
-            fprintf(out, "unknown-op\n");
-            continue;
-        }
-        fprintf(out, "%s ev=%s\n", big ? big : res, evbuf);
-        if (big) __real_free(big);
     }
+    FRAME_SETUP_BEGIN();   /* exit handlers of the shared object write to its data */
     fclose(out);
     return 0;
 }
